@@ -363,6 +363,19 @@ def replay(run, F, body, p, T, counts):
                     ok = True
                 ob("index", "index into %s" % K[:30], ok, "index %s into %s is not shown to be < its length [%s]" % (tshow(idx)[:40], K, pc), node)
             continue
+        if name.split("::")[-1] in ("drain", "split_at", "split_at_mut", "copy_within", "rotate_left", "rotate_right") and name.startswith(("std::vec::Vec::", "core::slice::", "std::collections::VecDeque::", "std::string::String::")) and len(args) > 1:
+            K = key(args[0])
+            c0, s0 = fx.bound(K)
+            a1 = simp(args[1])
+            bounds = []
+            if a1[0] == "ctor" and "Range" in a1[1] and isinstance(a1[2], dict):
+                bounds = [strip(a1[2][b]) for b in ("start", "end") if b in a1[2]]
+            elif a1[0] != "ctor":
+                bounds = [strip(a1)]
+            ok = all((v[0] == "lit" and isinstance(v[1], int) and v[1] <= c0) or key(v) in s0 or (is_call(v) and v[1] in LEN_Q and key(v[2][0]) == K) for v in bounds)
+            ob("vec-range", name.split("::")[-1], ok, "%s(%s) needs the range to lie within len(%s); established len >= %d [%s]" % (name, tshow(a1)[:40], K, c0, pc), node)
+            fx.mutate(K)
+            continue
         if name in T["index"]:
             K = key(args[0])
             i = T["index"][name]
